@@ -6,12 +6,12 @@ LEVEL = "exploration"
 
 def plan(tier, seed):
     quick = tier == "quick"
-    cases = 36 if quick else 1500
+    cases = 24 if quick else 1500
     net = runner.net_path("material", 1)
     shards = []
     for i in range(16):
         variant = "asan" if i % 4 != 3 else "opt"
-        shards.append(dict(bin=("asan", "c05"), args=["--cases", cases, "--engine", build.binpath(variant, "texel"), "--net", net]))
+        shards.append(dict(bin=("asan", "c05"), args=["--cases", cases, "--engine", build.binpath(variant, "texel"), "--net", net] + (["--max-threads", 4, "--max-hash", 64] if quick else [])))
     return dict(
         builds=[("asan", "c05"), ("asan", "texel"), ("opt", "texel")],
         nets=[("material", 1)],
